@@ -40,6 +40,7 @@ type Case struct {
 	GoMaxProcs int        `json:"gomaxprocs"`
 	Rounds     int        `json:"rounds"`
 	Mw         int        `json:"mw"`     // route "mux": number of middlewares in front of the handler (each sets a header before $next and writes to the body after it; a body write before $next would commit the response and make the handler's status/header inert, see C13)
+	MwSG       bool       `json:"mwsg"`   // the outermost middleware parks at a gate, then reads $_GET before $next (header X-MwG)
 	Group      bool       `json:"group"`  // route "mux": register the route (and the middlewares) in a $server->group("/g")
 	Warmup     bool       `json:"warmup"` // serve one request alone to completion before the interleaving
 	Yields     bool       `json:"yields"` // park requests at the verif yield point inside the $_GET lazy fill too
@@ -49,6 +50,7 @@ type Resp struct {
 	Status int               `json:"status"`
 	XId    string            `json:"xid"`
 	Mw     []string          `json:"mw,omitempty"` // X-Mw<j> header of each middleware
+	MwG    string            `json:"mwg,omitempty"` // X-MwG: what the outermost middleware read from $_GET before $next
 	Fields map[string]string `json:"fields"`
 	Body   string            `json:"body,omitempty"`
 	Panic  string            `json:"panic,omitempty"`
@@ -71,11 +73,14 @@ var readExpr = map[string]string{
 	"obj":       `$obj->v`,
 	"clo":       `$f()`,
 	"loop":      `$acc`,
+	"ob_open":   `c11_ob_open($id)`,    // ob_start(); echo $id;  — the output buffer stack is process-wide
+	"ob_close":  `ob_get_clean()`,
 }
 
 func script(segs [][]string, gates bool) string {
 	var sb strings.Builder
 	sb.WriteString("class C11Box { public $v; function __construct($v) { $this->v = $v; } }\n")
+	sb.WriteString("function c11_ob_open($id) { ob_start(); echo $id; return $id; }\n")
 	sb.WriteString("function h($r, $w) {\n")
 	sb.WriteString("  $id = $r->input(\"id\");\n  $n = (int)$id;\n  $local = $id;\n  $arr = [0, $id];\n  $obj = new C11Box($id);\n")
 	sb.WriteString("  $f = function() use ($id) { return $id; };\n")
@@ -167,6 +172,11 @@ func mkHandler(c *Case, withGates bool) (http.Handler, string) {
 			src += "$rt = $server->group(\"/g\");\n"
 		}
 		for j := 0; j < c.Mw; j++ {
+			if j == 0 && c.MwSG {
+				// registered first = outermost: a scheduling point, then a superglobal read BEFORE $next
+				src += "$rt->middleware(function($r, $w, $next) { $mid = $r->input(\"id\"); verif_gate((int)$mid, 100); $w->header(\"X-MwG\", $_GET[\"id\"]); $w->header(\"X-Mw0\", $mid); $next($r, $w); $w->write(\"m0b=\" . $mid . \";\"); });\n"
+				continue
+			}
 			src += fmt.Sprintf("$rt->middleware(function($r, $w, $next) { $mid = $r->input(\"id\"); $w->header(\"X-Mw%d\", $mid); $next($r, $w); $w->write(\"m%db=\" . $mid . \";\"); });\n", j, j)
 		}
 		src += "$rt->post(\"/h\", function($r, $w) { h($r, $w); });\n"
@@ -234,7 +244,7 @@ func serve(h http.Handler, i int) (r Resp) {
 			break
 		}
 	}
-	return Resp{Status: res.StatusCode, XId: res.Header.Get("X-Id"), Mw: mw, Fields: parseBody(rec.Body.String())}
+	return Resp{Status: res.StatusCode, XId: res.Header.Get("X-Id"), Mw: mw, MwG: res.Header.Get("X-MwG"), Fields: parseBody(rec.Body.String())}
 }
 
 func runGated() {
@@ -427,7 +437,12 @@ func runLoad() {
 				if len(tops) == 2 && tops[0] > tops[1] {
 					tops[0], tops[1] = tops[1], tops[0]
 				}
-				pairs[strings.Join(tops, " | ")]++
+				key := strings.Join(tops, " | ")
+				// does either stack pass through a superglobal cache function?
+				if strings.Contains(blk, "node.ResetSuperglobals") || (strings.Contains(blk, "origami/node.(*") && strings.Contains(blk, "Variable).GetValue")) {
+					key += " [sg]"
+				}
+				pairs[key]++
 			}
 			o["races"] = pairs
 		}
